@@ -12,6 +12,17 @@ CLAIMED = {
             "generates the same inputs, and validates every result of the real functions against the same TLA+ contract "
             "(decode-preserved, delimiters stay escaped, no raw space, no new control, idempotent, escapes kept).",
             "Trusted: TLC, the TLA+ definitions of percent-decoding/UTF-8 (spec/Pct.tla, spec/Text.tla), the Python driver that only moves code points."),
+    "C10": ("DESIGN.md section 4 / C10",
+            "implementation-shaped TLA+ model of TrieDict checked by TLC against a finite-map spec (refinement, counters, observers); edge cover of the reachable state graph replayed into the real class; projections validated by TLC trace spec",
+            "TLC explores every assignment history over a small key universe (full reachable graph), proves the trie model refines a "
+            "dictionary, and every (state, assignment) edge is replayed on the real TrieDict with all observers compared by the trace spec.",
+            "Trusted: TLC, TrieDict.tla's transcription of trie_dict.py, the driver's projection of observer results to strings."),
+    "C09": ("DESIGN.md section 4 / C09",
+            "TLA+ model of HostnameTrieSet over TrieDict!SetAndPrune checked by TLC against the abstract set of added hosts (all histories, finite universe); edge cover + random histories replayed into the real class; TLC trace validation",
+            "TLC explores all 2^14 / 2^12 sets of added hosts (every history of any length over the universe), checks antichain refinement, "
+            "match = covered-by-some-added-host, len/iter = minimal elements; recorded histories of the real class (spellings from a TLA+ table) "
+            "are validated step by step.",
+            "Trusted: TLC, the spelling table in C09.tla (cross-checked against python idna at run time), the URL forms of the query table."),
 }
 
 PENDING_REASON = "check not built yet in this revision (planned: TLA+ spec + trace validation, see DESIGN.md section 4); not claimed"
